@@ -948,7 +948,8 @@ ErrorState::compileLogformatCode(Build &build)
 void
 ErrorState::compileLegacyCode(Build &build)
 {
-    static MemBuf mb;
+    // not static: nested compilations (%D, %S) must not see or clobber this buffer
+    MemBuf mb;
     const char *p = nullptr;   /* takes priority over mb if set */
     int do_quote = 1;
     int no_urlescape = 0;       /* if true then item is NOT to be further URL-encoded */
